@@ -6,7 +6,7 @@ CONSTANTS
     SnapOrder <- Order2
     MaxRev = 3
     MaxOps = 2
-    MaxTasks = 30
+    MaxTasks = 36
     MaxFaults = 1
     KindOpts <- KAll
     TxnOpts <- BoolFT
